@@ -1500,11 +1500,15 @@ class Interp:
                 fr.store_through(args[0], nv)
                 return
             raise NotDerivable('iteration over a non-constant slice', where)
-        if name == 'len' and res.startswith('core::slice::<impl [T]>::len'):
+        if name in ('len', 'is_empty') and res.startswith('core::slice::<impl [T]>::' + name):
             base = self.value_of_ref(fr, args[0])
-            if isinstance(base, Ref):
-                base = fr._project(fr.store.get(base.root, TOP), base.proj)
-            fr.storev(dest, Int(len(base.items)) if isinstance(base, Agg) else TOP)
+            for _ in range(3):
+                if isinstance(base, Ref):
+                    base = fr._project(fr.store.get(base.root, TOP), base.proj)
+            if name == 'len':
+                fr.storev(dest, Int(len(base.items)) if isinstance(base, Agg) else TOP)
+            else:
+                fr.storev(dest, Int(int(not base.items), 1) if isinstance(base, Agg) else TOP)
             return
 
         # ---- iterator adaptors over modelled iterators (closures are interpreted)
